@@ -69,6 +69,17 @@ func (s *sizedReader) next() int {
 	return n
 }
 
+// ReadProgress lets handlers observe how far the application has got: Req is
+// the index of the message being requested/read (number of NextReader-level
+// calls begun minus one), Bytes the number of bytes of that message the
+// library has returned so far.
+type ReadProgress struct {
+	Req   int
+	Bytes int
+}
+
+var curProgress *ReadProgress
+
 // readBody reads r with the step's sizes until EOF, error or abandon point.
 func readBody(r io.Reader, st RStep) (data []byte, complete bool, err error) {
 	sr := &sizedReader{sizes: st.Sizes}
@@ -87,6 +98,9 @@ func readBody(r io.Reader, st RStep) (data []byte, complete bool, err error) {
 		buf := make([]byte, n)
 		k, e := r.Read(buf)
 		data = append(data, buf[:k]...)
+		if curProgress != nil {
+			curProgress.Bytes += k
+		}
 		if e == io.EOF {
 			for i := 0; i < st.ExtraEOF; i++ {
 				var xb [8]byte
@@ -117,6 +131,16 @@ func readBody(r io.Reader, st RStep) (data []byte, complete bool, err error) {
 // only to size join reads).  extraAfter is the number of additional
 // NextReader calls made after the first message-level error.
 func RunRead(c *websocket.Conn, steps []RStep, max int, lens []int, extraAfter int) *RTrace {
+	return RunReadP(c, steps, max, lens, extraAfter, nil)
+}
+
+// RunReadP is RunRead with progress reporting for handler-order oracles.
+func RunReadP(c *websocket.Conn, steps []RStep, max int, lens []int, extraAfter int, prog *ReadProgress) *RTrace {
+	curProgress = prog
+	defer func() { curProgress = nil }()
+	if prog != nil {
+		prog.Req, prog.Bytes = -1, 0
+	}
 	tr := &RTrace{}
 	if len(steps) == 0 {
 		steps = []RStep{{Op: "readmessage", Abandon: -1}}
@@ -124,6 +148,9 @@ func RunRead(c *websocket.Conn, steps []RStep, max int, lens []int, extraAfter i
 	mi := 0 // index of next message
 	for si := 0; mi < max; si++ {
 		st := steps[si%len(steps)]
+		if prog != nil {
+			prog.Req, prog.Bytes = mi, 0
+		}
 		switch st.Op {
 		case "readmessage":
 			mt, p, err := c.ReadMessage()
@@ -222,6 +249,10 @@ func RunRead(c *websocket.Conn, steps []RStep, max int, lens []int, extraAfter i
 	}
 	if tr.Final != nil {
 		for i := 0; i < extraAfter; i++ {
+			if prog != nil {
+				prog.Req++
+				prog.Bytes = 0
+			}
 			mt, r, err := c.NextReader()
 			if err == nil {
 				tr.AfterData = true
